@@ -58,13 +58,24 @@ PctTimesDen(a, pn, pd) ==
       i == posn \div pd
       rem == posn % pd
   IN  IF i + 1 >= n THEN a[n] * pd ELSE a[i + 1] * pd + rem * (a[i + 2] - a[i + 1])
-\* returns "hi", "lo" or "tie" (value exactly on the threshold: float rounding of q may decide)
+\* The threshold is reproduced EXACTLY by the floating-point interpolation a + (b - a) t when the two neighbouring order
+\* statistics coincide (b - a = 0) or when the position p (n-1) is an integer computed without rounding (t = 0: dyadic p,
+\* e.g. 1/2, 1/4, 3/4).  Then "strictly above / below" is decidable: a value ON the threshold keeps the low level.
+Dyadic(d) == d \in {1, 2, 4, 8, 16}
+PctExact(a, pn, pd) ==
+  LET n == Len(a)
+      posn == pn * (n - 1)
+      i == posn \div pd
+      rem == posn % pd
+  IN  IF i + 1 >= n THEN Dyadic(pd) ELSE IF rem = 0 THEN Dyadic(pd) ELSE a[i + 1] = a[i + 2]
+\* returns "hi", "lo" or "tie" (value on a threshold whose float rounding may decide)
 QuantileLevel(r, idx) ==
   LET vals == SortedAsc([j \in 1..Len(Group(r, idx)) |-> Mod(r, Group(r, idx)[j])])
       qn == r.q[1] qd == r.q[2]
       thr == IF qn >= 0 THEN PctTimesDen(vals, qd - qn, qd) ELSE PctTimesDen(vals, -qn, qd)
+      exact == IF qn >= 0 THEN PctExact(vals, qd - qn, qd) ELSE PctExact(vals, -qn, qd)
       v == Mod(r, idx) * qd
-  IN  IF v = thr THEN "tie"
+  IN  IF v = thr THEN (IF exact THEN "lo" ELSE "tie")
       ELSE IF qn >= 0 THEN (IF v > thr THEN "hi" ELSE "lo")
       ELSE (IF v < thr THEN "hi" ELSE "lo")
 \* levels 0.5 +- weight/2  as <<num, den>>
